@@ -257,6 +257,178 @@ Proof.
 Qed.
 
 (* ------------------------------------------------------------------ *)
+(* every static call of a constructed codec is bound                     *)
+Definition owns (r: registry) (c: cname) : Prop := exists h, assoc r c = Some h /\ h_has h = true.
+Definition field_classes (E: env) (c: cname) : list cname :=
+  match find_cls E c with Some d => flat_map ty_classes (map f_ty (c_fields d)) | None => [] end.
+(* a holder that owns its method was compiled when the holders of all field classes owned theirs *)
+Definition closed_reg (E: env) (r: registry) : Prop :=
+  forall c, owns r c -> forall c', In c' (field_classes E c) -> owns r c'.
+
+Lemma assoc_reg_set_same r c h : assoc (reg_set r c h) c = Some h.
+Proof.
+  induction r as [|[k x] q IH]; simpl.
+  - rewrite String.eqb_refl; reflexivity.
+  - destruct (String.eqb k c) eqn:Hk; simpl; rewrite Hk; [reflexivity|exact IH].
+Qed.
+
+Lemma assoc_reg_set_other r c h k : k <> c -> assoc (reg_set r c h) k = assoc r k.
+Proof.
+  intros Hn. induction r as [|[k0 x] q IH]; simpl.
+  - destruct (String.eqb c k) eqn:H; [apply String.eqb_eq in H; congruence|reflexivity].
+  - destruct (String.eqb k0 c) eqn:Hk; simpl.
+    + apply String.eqb_eq in Hk. subst k0.
+      destruct (String.eqb c k) eqn:H; [apply String.eqb_eq in H; congruence|reflexivity].
+    + destruct (String.eqb k0 k); [reflexivity|exact IH].
+Qed.
+
+Lemma owns_reg_set_true r c i k : owns r k -> owns (reg_set r c (mkH i true)) k.
+Proof.
+  intros [h [Ha Hh]]. destruct (String.eqb k c) eqn:Hk.
+  - apply String.eqb_eq in Hk. subst k. exists (mkH i true). rewrite assoc_reg_set_same. split; reflexivity.
+  - apply String.eqb_neq in Hk. exists h. rewrite (assoc_reg_set_other _ _ _ _ Hk). split; assumption.
+Qed.
+
+Lemma owns_attrs_of plan c s h s1 k : attrs_of plan c s = Some (h, s1) -> owns (s_reg s) k -> owns (s_reg s1) k.
+Proof.
+  unfold attrs_of. destruct (assoc (s_reg s) c) as [h0|] eqn:Ha.
+  - intros H; inversion H; subst; auto.
+  - destruct plan as [|k1 [|] [|]]; try discriminate. intros H; inversion H; subst; clear H. simpl.
+    intros [h' [Hk Hh]]. exists h'. split; [|exact Hh]. rewrite assoc_reg_set_other; [exact Hk|].
+    intros ->. rewrite Ha in Hk. discriminate.
+Qed.
+
+Lemma attrs_of_assoc plan c s h s1 : attrs_of plan c s = Some (h, s1) -> assoc (s_reg s1) c = Some h.
+Proof.
+  unfold attrs_of. destruct (assoc (s_reg s) c) as [h0|] eqn:Ha.
+  - intros H; inversion H; subst; exact Ha.
+  - destruct plan as [|k1 [|] [|]]; try discriminate. intros H; inversion H; subst; clear H. simpl.
+    apply assoc_reg_set_same.
+Qed.
+
+(* after a position of class [c] compiled by the builder of [cur]: owners stay owners, the holder of [c] owns its
+   method unless [c] is the class being compiled (its method is stored when its builder finishes), closedness is kept *)
+Definition site_post (E: env) (cur: option cname) (c: cname) (s s': cst) : Prop :=
+  (forall k, owns (s_reg s) k -> owns (s_reg s') k) /\ (owns (s_reg s') c \/ cur = Some c) /\
+  (closed_reg E (s_reg s) -> closed_reg E (s_reg s')).
+
+Lemma fold_sites_post E cur (step: cname -> cst -> res cst) :
+  (forall x s s', step x s = Ok s' -> site_post E cur x s s') ->
+  forall l s s', fold_sites step l s = Ok s' ->
+    (forall k, owns (s_reg s) k -> owns (s_reg s') k) /\ (forall x, In x l -> owns (s_reg s') x \/ cur = Some x) /\
+    (closed_reg E (s_reg s) -> closed_reg E (s_reg s')).
+Proof.
+  intros Hs. induction l as [|x r IH]; simpl; intros s s' H.
+  - inversion H; subst. split; [|split]; auto. intros x [].
+  - destruct (step x s) as [s1|] eqn:H1; [|discriminate].
+    destruct (Hs _ _ _ H1) as [M1 [O1 C1]]. destruct (IH _ _ H) as [M2 [O2 C2]].
+    split; [|split]; auto. intros y [->|Hy]; auto. destruct O1 as [O1|O1]; [left; auto|right; exact O1].
+Qed.
+
+(* the bound receiver; [rebuild] starts a nested builder at least when the holder lacks the method and the class is
+   not the one being compiled (true of K115a.pack_rebuild: kernel_rebuild_ok below); strict or late binding *)
+Lemma site_spec E late rebuild plan (Hreb: forall d b, rebuild d b = false -> d = true \/ b = true) fuel :
+  forall cur c s s', site E late rebuild RBound plan fuel cur c s = Ok s' -> site_post E cur c s s'.
+Proof.
+  induction fuel as [|n IH]; intros cur c s s' H; simpl in H; [discriminate|].
+  destruct (attrs_of plan c s) as [[h s1]|] eqn:Ha; [|discriminate].
+  set (is_cur := match cur with Some c0 => String.eqb c0 c | None => false end) in H.
+  assert (M01: forall k, owns (s_reg s) k -> owns (s_reg s1) k) by (intros k; eapply owns_attrs_of; exact Ha).
+  assert (C01: closed_reg E (s_reg s) -> closed_reg E (s_reg s1)).
+  { intros Hc k [hk [Hk1 Hk2]] c' Hin. apply M01. apply (Hc k); [|exact Hin].
+    (* an owner of s1 is an owner of s: attrs_of adds a holder WITHOUT the method only *)
+    unfold attrs_of in Ha. destruct (assoc (s_reg s) c) as [h0|] eqn:Hc0.
+    - inversion Ha; subst. exists hk; split; assumption.
+    - destruct plan as [|k1 [|] [|]]; try discriminate. inversion Ha; subst; clear Ha. simpl in Hk1.
+      destruct (String.eqb k c) eqn:Hkc.
+      + apply String.eqb_eq in Hkc. subst k. rewrite assoc_reg_set_same in Hk1. inversion Hk1; subst. discriminate.
+      + apply String.eqb_neq in Hkc. rewrite (assoc_reg_set_other _ _ _ _ Hkc) in Hk1. exists hk; split; assumption. }
+  destruct (rebuild (h_has h) is_cur) eqn:Hrb.
+  - destruct (find_cls E c) as [d|] eqn:Hd; [|discriminate].
+    destruct (fold_sites _ _ s1) as [s3|] eqn:Hf; [|discriminate].
+    destruct (fold_sites_post E (Some c) _ (fun x a b => IH (Some c) x a b) _ _ _ Hf) as [M13 [O3 C13]].
+    cbn [s_reg s_next] in H. rewrite assoc_reg_set_same in H. simpl in H. inversion H; subst; clear H.
+    unfold site_post. cbn [s_reg s_next].
+    assert (Own: owns (reg_set (s_reg s3) c (mkH (h_id h) true)) c)
+      by (exists (mkH (h_id h) true); rewrite assoc_reg_set_same; split; reflexivity).
+    split; [|split].
+    + intros k Hk. apply owns_reg_set_true. auto.
+    + left; exact Own.
+    + intros Hc k Hk c' Hin.
+      destruct (String.eqb k c) eqn:Hkc.
+      * apply String.eqb_eq in Hkc. subst k.
+        unfold field_classes in Hin. rewrite Hd in Hin.
+        destruct (O3 c' Hin) as [Ho|Ho]; [apply owns_reg_set_true; exact Ho|inversion Ho; subst; exact Own].
+      * apply String.eqb_neq in Hkc. apply owns_reg_set_true.
+        apply (C13 (C01 Hc) k); [|exact Hin].
+        destruct Hk as [hk [Hk1 Hk2]]. rewrite (assoc_reg_set_other _ _ _ _ Hkc) in Hk1. exists hk; split; assumption.
+  - destruct (assoc (s_reg s1) c) as [h2|] eqn:H2; [|discriminate].
+    destruct (h_has h2 || late); [|discriminate]. inversion H; subst; clear H.
+    split; [|split]; auto.
+    destruct (Hreb _ _ Hrb) as [Hd|Hd].
+    + left. exists h. split; [eapply attrs_of_assoc; exact Ha|exact Hd].
+    + right. unfold is_cur in Hd. destruct cur as [c0|]; [|discriminate]. apply String.eqb_eq in Hd. subst; reflexivity.
+Qed.
+
+Theorem compile_complete E late rebuild plan t next s :
+  (forall d b, rebuild d b = false -> d = true \/ b = true) ->
+  compile_ty E late rebuild RBound plan t next = Ok s ->
+  (forall c, In c (ty_classes t) -> owns (s_reg s) c) /\ closed_reg E (s_reg s).
+Proof.
+  unfold compile_ty. intros Hreb H.
+  destruct (fold_sites_post E None _ (fun x a b => site_spec E late rebuild plan Hreb _ None x a b) _ _ _ H) as [_ [O C]].
+  split.
+  - intros c Hc. destruct (O c Hc) as [Ho|Ho]; [exact Ho|discriminate].
+  - apply C. intros c [h [Hc _]]. simpl in Hc. discriminate.
+Qed.
+
+(* the two facts about the translated kernel the theorem needs - re-checked against the source on every run *)
+Lemma kernel_rebuild_ok : forall d b, K115a.pack_rebuild d b false false false = false -> d = true \/ b = true.
+Proof. intros [|] [|]; vm_compute; auto; discriminate. Qed.
+Lemma kernel_recv_bound : K115a.pack_recv false = RBound.
+Proof. reflexivity. Qed.
+
+(* a codec that could be constructed: every dataclass of the shape type has a holder owning its method, and so has -
+   transitively - every class a compiled class mentions in its fields: no static call of the generated code is left
+   unbound, none falls back to a method stored on a class.  For the strict and for the late binding. *)
+Theorem create_codec_complete w t w' : create_codec w t = Ok w' ->
+  exists r, w_regs w' = (w_regs w ++ [r])%list /\
+            (forall c, In c (ty_classes t) -> owns r c) /\ closed_reg (w_env w) r.
+Proof.
+  unfold create_codec. rewrite kernel_recv_bound. intros H.
+  destruct (compile_ty _ _ _ _ _ _ _) as [s|] eqn:Hc; [|discriminate]. inversion H; subst; clear H; simpl.
+  exists (s_reg s). split; [reflexivity|]. eapply compile_complete; [|exact Hc]. exact kernel_rebuild_ok.
+Qed.
+
+(* the same for decoders (BasicDecoder / decode): unpack_dataclass read by the same kernel *)
+Definition create_decoder (w: world) (t: ty) : res world :=
+  match compile_ty (w_env w) K115a.unpack_selfref_late (fun d c => K115a.unpack_rebuild d c false false false)
+                   (K115a.unpack_recv false) (K115a.attrs_plan false) t (w_next w) with
+  | Ok s => Ok (mkW (w_env w) (w_regs w ++ [s_reg s])%list (s_next s))
+  | Err e => Err e
+  end.
+
+Lemma kernel_unpack_rebuild_ok : forall d b, K115a.unpack_rebuild d b false false false = false -> d = true \/ b = true.
+Proof. intros [|] [|]; vm_compute; auto; discriminate. Qed.
+Lemma kernel_unpack_recv_bound : K115a.unpack_recv false = RBound.
+Proof. reflexivity. Qed.
+
+Theorem create_decoder_frame_complete w t w' : create_decoder w t = Ok w' ->
+  w_env w' = w_env w /\ w_next w <= w_next w' /\
+  exists r, w_regs w' = (w_regs w ++ [r])%list /\ Forall (fun i => w_next w <= i < w_next w') (ids r) /\
+            (forall c, In c (ty_classes t) -> owns r c) /\ closed_reg (w_env w) r.
+Proof.
+  unfold create_decoder. rewrite kernel_unpack_recv_bound. intros H.
+  destruct (compile_ty _ _ _ _ _ _ _) as [s|] eqn:Hc; [|discriminate]. inversion H; subst; clear H; simpl.
+  assert (G: grows (mkS [] (w_next w)) s).
+  { unfold compile_ty in Hc. eapply fold_sites_grows; [|exact Hc]. intros x a b; apply site_grows. }
+  destruct G as [G1 G2]; simpl in G1, G2.
+  split; [reflexivity|]. split; [exact G1|]. exists (s_reg s). split; [reflexivity|]. split.
+  - apply Forall_forall. intros i Hi. destruct (G2 i Hi) as [[]|Hr]; exact Hr.
+  - eapply compile_complete; [|exact Hc]. exact kernel_unpack_rebuild_ok.
+Qed.
+
+(* ------------------------------------------------------------------ *)
 (* histories with real codec creation                                    *)
 Definition after_create (w: world) (t: ty) : world :=
   match create_codec w t with Ok w' => w' | Err _ => w end.       (* a constructor that raises leaves nothing behind *)
